@@ -5,6 +5,7 @@ CONSTANTS
   MaxInv = 1000
   ImmediateExt = FALSE
   AmoReadyStart = FALSE
+  WithPaging = TRUE
 CONSTRAINT Progress
 INVARIANT C01_NoReexecution
 INVARIANT C02_SameObservation
@@ -14,6 +15,7 @@ INVARIANT C11_ValidHistory
 INVARIANT C12_StrategyArg
 INVARIANT C13_StateThreading
 INVARIANT C16_LargeFinal
+INVARIANT C17_LoggerExact
 INVARIANT C12_RetryBound
 INVARIANT C07_PendingIsWakeable
 POSTCONDITION Accepted
